@@ -19,6 +19,7 @@ Max(a, b) == IF a > b THEN a ELSE b
 \* R(s, f): result of a handler: new state and number of failed clauses
 R(s, f) == [s |-> s, f |-> f]
 RF(f, s) == [s |-> s, f |-> f]
+RS(s) == [s |-> s]
 \* evaluated for its side effect (one line per failing clause); the driver de-duplicates
 Fail(name, line, detail) == IF PrintT(<<"FAIL", name, line, detail>>) THEN 1 ELSE 1
 Chk(name, cond, line, detail) == IF cond THEN 0 ELSE Fail(name, line, detail)
@@ -77,7 +78,8 @@ Stuck(s, k) ==
   IF ~(y.eutSender /\ LinkLiveE(y) /\ y.pAtt /\ ~y.pDet /\ y.sendsIssued > y.delsDone /\ i > 0) THEN "no" ELSE
   LET x == s.ss[i]
       winStrict == x.pBegun /\ ~x.pEnded /\ (x.initOut + x.framesOut) - x.peerNII < x.peerWin
-      credit == y.inDel \/ (y.limit >= 0 /\ y.dcS < y.limit)
+      \* (a delivery abandoned by a cancelled send holds no claim to be continued)
+      credit == (y.inDel /\ y.cancels = 0) \/ (y.limit >= 0 /\ y.dcS < y.limit)
   IN IF ~LiveE(x) \/ ~x.pBegun \/ x.pEnded THEN "no"
      ELSE IF winStrict /\ credit THEN (IF x.devWin > 0 THEN "stuck" ELSE "stuck_dev_closed")
      ELSE IF ~winStrict THEN "window" ELSE "credit"
@@ -477,12 +479,18 @@ H_ApiRet(s, r, l) ==
        LET q == s.ls[k].sendq[qi] IN
        R(s, Chk("C02_OwnOutcome", IF q.presettled THEN r.res.outcome = "accepted" ELSE (q.outcome # "none" /\ r.res.outcome = q.outcome), l,
                 IF q.presettled THEN "presettled" ELSE IF q.outcome = "none" THEN "early" ELSE "wrong"))
-  ELSE IF r.op \in {"send", "send_batchable"} /\ ~r.res.ok THEN
-       LET k == LinkByName(s, r.lname, TRUE) IN
+  ELSE IF r.op \in {"send", "send_batchable", "await_outcome"} /\ ~r.res.ok THEN
+       LET k == LinkByName(s, r.lname, TRUE)
+           c == IF r.op = "await_outcome" THEN r.of ELSE r.call IN
        IF k = 0 THEN R(s, 0) ELSE
+       LET qi == FirstIdx(s.ls[k].sendq, LAMBDA q : q.call = c)
+           \* the peer has reported a terminal outcome for this very delivery and nothing has failed: the send must report that outcome
+           owed == qi > 0 /\ s.ls[k].sendq[qi].outcome # "none" /\ ConnUp(s) /\ ~s.ls[k].pDet /\ r.res.class # "Cancelled"
+                   /\ SessByE(s, s.ls[k].ech) > 0 /\ ~s.ss[SessByE(s, s.ls[k].ech)].pEnded
+       IN RF(Chk("C02_OwnOutcome", ~owed, l, "error-instead"),
        \* a cancelled send may or may not have put its message on the wire: it is no longer owed
-       R(SetL(s, k, [s.ls[k] EXCEPT !.sendsIssued = IF @ > s.ls[k].delsDone /\ (~s.ls[k].inDel \/ r.res.class = "Cancelled") THEN @ - 1 ELSE @,
-                                    !.cancels = IF r.res.class = "Cancelled" THEN @ + 1 ELSE @]), 0)
+       SetL(s, k, [s.ls[k] EXCEPT !.sendsIssued = IF @ > s.ls[k].delsDone /\ (~s.ls[k].inDel \/ r.res.class = "Cancelled") THEN @ - 1 ELSE @,
+                                    !.cancels = IF r.res.class = "Cancelled" THEN @ + 1 ELSE @]))
   ELSE R(s, 0)
 
 \* ---------------------------------------------------------------- failures propagate (C14)
